@@ -105,7 +105,23 @@ def _refcheck(ctx, rel, dotted, refname, key, ints=None):
 
 # ------------------------------------------------------------------ C01.1
 def c01_1(ctx):
-    f = ctx.func(GEN, "Generator.verify")
+    from sa import modref as _modref
+    impls = [ctx.func(GEN, "Generator.verify")]
+    # an implementation of verify added since the review (an override in a native mix-in, say) answers for the same ranges
+    for q, g in sorted(ctx.p.functions.items()):
+        if g.node.__class__.__name__ == "FunctionDef" and g.node.name == "verify" and g.module.relpath in (GEN, "pycoin/ecdsa/native/openssl.py", "pycoin/ecdsa/native/secp256k1.py") \
+                and not _modref.is_reviewed(g) and len(g.params()) >= 4:
+            impls.append(g)
+    for f in impls:
+        _verify_ranges(ctx, f)
+    f = impls[0]
+    w = sym.walk(ctx, f)
+    for e in w.exits:
+        ctx.check(e.kind == "return" and e.value is not None, "verify-returns-bool:%s" % e.kind, ctx.where(f, e.node),
+                  "Generator.verify has an exit that is not `return <bool>` (%s)" % e.kind, what="exit:%s:%s" % (e.kind, norm(e.value) if e.value is not None else ""))
+
+
+def _verify_ranges(ctx, f):
     params = f.params()
     if len(params) < 4:
         raise AnalysisError("Generator.verify: unexpected signature %s" % params)
@@ -115,13 +131,9 @@ def c01_1(ctx):
         w = sym.int_walk(ctx, f, {subj}, ORDER_TEXTS)
         fr = sym.exits_formula(w, accept)
         may = sym.may_set(fr, U, E) if fr is not False else E
-        ctx.check(may == want, key, ctx.where(f),
-                  "Generator.verify: values of %s for which the equation is evaluated are %s; the property requires exactly %s (order = self._order, the group order)" % (subj, may.fmt("order"), want.fmt("order")),
+        ctx.check(may == want, "%s:%s" % (key, f.qualname.rsplit(".", 2)[-2]) if f.qualname.count(".") > 1 else key, ctx.where(f),
+                  f.qualname.split(".", 3)[-1] + ": values of %s for which the equation is evaluated are %s; the property requires exactly %s (order = self._order, the group order)" % (subj, may.fmt("order"), want.fmt("order")),
                   sample={"function": f.qualname, "subject": subj, "may_accept": may.fmt("order"), "expected": want.fmt("order")})
-    w = sym.walk(ctx, f)
-    for e in w.exits:
-        ctx.check(e.kind == "return" and e.value is not None, "verify-returns-bool:%s" % e.kind, ctx.where(f, e.node),
-                  "Generator.verify has an exit that is not `return <bool>` (%s)" % e.kind, what="exit:%s:%s" % (e.kind, norm(e.value) if e.value is not None else ""))
 
 
 # ------------------------------------------------------------------ C01.2
